@@ -8,6 +8,7 @@
 import Proofs.Lemmas.SalsaRounds
 import Proofs.Lemmas.StreamEnc
 import Proofs.Lemmas.SalsaBytes
+import Proofs.Lemmas.Rc4
 namespace Proofs.C06
 open Model Model.Gen.Streams Proofs.Lemmas.StreamPoly Proofs.Lemmas.SalsaRounds Proofs.Lemmas.StreamEnc Proofs.Lemmas.SalsaBytes
 
@@ -209,5 +210,102 @@ theorem chacha_enc_prefix (K : List Bits) (P : List (BitVec 32)) (hP : P.length 
   refine ⟨_, _, ⟨some K, ofBV P'', dr⟩, ⟨some K, ofBV P3, dr⟩, h, ?_, ?_⟩
   · rw [h2, encW_sameKey _ dr 14 12 hk, encW_prefix chachaSpec dr 14 12 P hP, List.map_take]
   · rw [h3, encW_prefix chachaSpec dr 14 12 P hP, List.map_take]
+
+/-! ## D. RC4 -/
+
+open Proofs.Lemmas.Rc4 in
+/-- **ksa_refines**: `RC4(K)` for every key of 1..256 bytes: `S` is the permutation of the specified KSA, `i = j = 0` -/
+theorem rc4_ksa_refines (key : List (BitVec 8)) (h0 : 0 < key.length) (h1 : key.length ≤ 256) :
+    Rc4.init (key.map BitVec.toNat) = .ok ⟨ofBV key, ofBV (Spec.Rc4.ksa key), 0, 0⟩ := by
+  rw [init_refines key h0 h1]
+  simp only [stateOf, Spec.Rc4.start]
+  rfl
+
+open Proofs.Lemmas.Rc4 in
+/-- keys outside 1..256 bytes are refused -/
+theorem rc4_key_length_checked (key : List Nat) (h : key.length = 0 ∨ key.length > 256) : ∃ e, Rc4.init key = .error e := by
+  unfold Rc4.init
+  have hd : (Poly.ofBytes key).dim = key.length := by simp [Poly.ofBytes, Poly.ofList, Poly.dim]
+  rcases h with h | h
+  · exact ⟨_, by simp only [hd, h, ↓reduceIte]; rfl⟩
+  · have : ¬ key.length = 0 := by omega
+    exact ⟨_, by simp only [hd, this, h, ↓reduceIte]; rfl⟩
+
+open Proofs.Lemmas.Rc4 in
+/-- **prga_refines**: `keystream(n)` on an object representing the specification state `sp` returns the next `n` bytes of
+    the specified PRGA and leaves the object representing the specified successor state (S, i, j persist) -/
+theorem rc4_prga_refines (K : Poly) (sp : Spec.Rc4.St) (hlen : sp.S.length = 256) (n : Nat) :
+    Rc4.keystream (stateOf K sp) n = .ok (ofBV (Spec.Rc4.prga n sp).1, stateOf K (Spec.Rc4.prga n sp).2) := by
+  unfold Rc4.keystream stateOf
+  rw [prga_refines n sp hlen, bind_ok]
+  simp only [pure, Except.pure]
+  rw [ofList_bytes]
+
+open Proofs.Lemmas.Rc4 in
+/-- `enc(M) = M xor (next |M| keystream bytes)`, the state carries on; in particular `|enc(M)| = |M|` (also for `b''`) -/
+theorem rc4_enc_spec (K : Poly) (sp : Spec.Rc4.St) (hlen : sp.S.length = 256) (M : List (BitVec 8)) :
+    Rc4.enc (stateOf K sp) (M.map (·.toNat)) = .ok ((Spec.Rc4.enc sp M).1.map (·.toNat), stateOf K (Spec.Rc4.enc sp M).2)
+    ∧ (Spec.Rc4.enc sp M).1.length = M.length
+    ∧ (Spec.Rc4.enc sp M).2.S.length = 256 := by
+  refine ⟨enc_refines K sp hlen M, ?_, by rw [enc_S_length]; exact hlen⟩
+  simp only [Spec.Rc4.enc, List.length_zipWith, prga_ks_length, Nat.min_self]
+
+open Proofs.Lemmas.Rc4 in
+/-- **continuity**: on a fresh object, `enc(M1 ++ M2)` = `enc(M1)` followed by `enc(M2)` on the carried state -/
+theorem rc4_continuity (key : List (BitVec 8)) (h0 : 0 < key.length) (h1 : key.length ≤ 256) (M1 M2 : List (BitVec 8)) :
+    (do let st ← Rc4.init (key.map BitVec.toNat)
+        let (c, _) ← Rc4.enc st ((M1 ++ M2).map BitVec.toNat)
+        pure c)
+    = (do let st ← Rc4.init (key.map BitVec.toNat)
+          let (c1, st1) ← Rc4.enc st (M1.map BitVec.toNat)
+          let (c2, _) ← Rc4.enc st1 (M2.map BitVec.toNat)
+          pure (c1 ++ c2)) := by
+  have hl := start_length key
+  rewrite [init_refines key h0 h1]
+  simp only [bind_ok]
+  rw [enc_refines (ofBV key) (Spec.Rc4.start key) hl, enc_refines (ofBV key) (Spec.Rc4.start key) hl, bind_ok, bind_ok]
+  simp only []
+  rw [enc_refines _ _ (by rw [enc_S_length]; exact hl), bind_ok]
+  simp only [pure, Except.pure, spec_enc_append, List.map_append]
+
+open Proofs.Lemmas.Rc4 in
+/-- **any split**: encrypting the pieces `M1 | M2 | … | Mn` (empty pieces allowed) in successive calls on one object yields,
+    concatenated, exactly `RC4_spec(K) xor (M1 ++ … ++ Mn)` = the one-shot encryption by a fresh object -/
+theorem rc4_any_split (key : List (BitVec 8)) (h0 : 0 < key.length) (h1 : key.length ≤ 256) (Ms : List (List (BitVec 8))) :
+    (do let st ← Rc4.init (key.map BitVec.toNat)
+        let (cs, _) ← Rc4.encSeq st (Ms.map (List.map BitVec.toNat))
+        pure cs.flatten)
+    = .ok ((Spec.Rc4.encrypt key Ms.flatten).map (·.toNat))
+    ∧ (do let st ← Rc4.init (key.map BitVec.toNat)
+          let (c, _) ← Rc4.enc st (Ms.flatten.map BitVec.toNat)
+          pure c)
+      = .ok ((Spec.Rc4.encrypt key Ms.flatten).map (·.toNat)) := by
+  have hl := start_length key
+  rewrite [init_refines key h0 h1]
+  simp only [bind_ok]
+  rw [encSeq_refines (ofBV key) (Spec.Rc4.start key) hl, enc_refines (ofBV key) (Spec.Rc4.start key) hl, bind_ok, bind_ok]
+  simp only [pure, Except.pure, Spec.Rc4.encrypt]
+  have := specSeq_flatten (Spec.Rc4.start key) Ms
+  constructor
+  · rw [← this]; simp [List.map_flatten]
+  · trivial
+
+open Proofs.Lemmas.Rc4 in
+/-- `RC4(K).dec(RC4(K).enc(M)) = M` (two fresh objects) -/
+theorem rc4_dec_enc (key : List (BitVec 8)) (h0 : 0 < key.length) (h1 : key.length ≤ 256) (M : List (BitVec 8)) :
+    (do let st ← Rc4.init (key.map BitVec.toNat)
+        let (c, _) ← Rc4.enc st (M.map BitVec.toNat)
+        let st' ← Rc4.init (key.map BitVec.toNat)
+        let (m, _) ← Rc4.dec st' c
+        pure m) = .ok (M.map (·.toNat)) := by
+  have hl := start_length key
+  rewrite [init_refines key h0 h1]
+  simp only [bind_ok, Rc4.dec]
+  rw [enc_refines (ofBV key) (Spec.Rc4.start key) hl, bind_ok]
+  simp only []
+  rw [enc_refines (ofBV key) (Spec.Rc4.start key) hl, bind_ok]
+  have hx := xorB_xorB M (Spec.Rc4.prga M.length (Spec.Rc4.start key)).1 (by rw [prga_ks_length]; exact Nat.le_refl _)
+  unfold xorB at hx
+  simp only [pure, Except.pure, Spec.Rc4.enc, List.length_zipWith, prga_ks_length, Nat.min_self, hx]
 
 end Proofs.C06
